@@ -202,22 +202,90 @@ Proof.
     simpl. apply opan_bind; [apply IH|intros x' _]. apply opan_bind; [apply IHd|intros; exact I].
 Qed.
 
+(* ------------------------------------------------------------------ what the compiler stores is a datum *)
+(* site 12 (put_cell of a procedure / continuation / macro object): every cell the compiler hands to
+   put_cell is a symbol - the free and internally defined symbols, formals, the targets of define / set!,
+   the keyword of define-syntax - or has passed the test [cell_is_datum] (quote, quasiquote leaves) *)
+Definition all_sym (l : list cell) : Prop := forall c, In c l -> Compile.is_symbol c = true.
+Definition opost {X} (P : X -> Prop) (o : out X) : Prop := match o with Ok x => P x | _ => True end.
+Lemma opost_bind {X Y} (P : X -> Prop) (Q : Y -> Prop) (o : out X) (f : X -> out Y) :
+  opost P o -> (forall x, P x -> opost Q (f x)) -> opost Q (bind o f).
+Proof. intros H1 H2. destruct o; cbn [bind opost] in *; auto. Qed.
+Lemma opost_true {X} (o : out X) : opost (fun _ => True) o.
+Proof. destruct o; exact I. Qed.
+Lemma sym_datum c : Compile.is_symbol c = true -> cell_is_datum c = true.
+Proof. destruct c; try discriminate; reflexivity. Qed.
+Lemma add_sym_all c l : Compile.is_symbol c = true -> all_sym l -> all_sym (add_sym c l).
+Proof.
+  intros Hc Hl. unfold add_sym. destruct (cell_in_syms c l); [exact Hl|].
+  intros x Hx. apply in_app_or in Hx. destruct Hx as [Hx|[<-|[]]]; [apply Hl, Hx|exact Hc].
+Qed.
+Lemma ffs_over_syms f env' : (forall c env free, all_sym free -> opost all_sym (ffs f c env free)) ->
+  forall r free, all_sym free -> opost all_sym (ffs_over f env' r free).
+Proof.
+  intros IH r. cell_ind r; intros free Hf; try exact (IH _ _ _ Hf); try exact Hf.
+  change (opost all_sym (bind (ffs f a env' free) (fun fr => ffs_over f env' d fr))).
+  eapply opost_bind; [apply IH, Hf|intros fr Hfr; apply IHd, Hfr].
+Qed.
+Lemma ffs_syms f : forall c env free, all_sym free -> opost all_sym (ffs f c env free).
+Proof.
+  induction f as [|f IH]; intros c env free Hf; [exact I|].
+  destruct c as [?|?| |?|car cdr|?|sy|?| | |?| | ]; try exact Hf.
+  - rewrite ffs_pair_eq. destruct (_ || _); [exact Hf|]. cbv zeta.
+    assert (H1 : all_sym (if Compile.is_symbol car && negb (is_primitive_symbol car) && negb (cell_in_syms car env)
+                          then add_sym car free else free)).
+    { destruct (Compile.is_symbol car && negb (is_primitive_symbol car) && negb (cell_in_syms car env)) eqn:Ec; [|exact Hf].
+      apply add_sym_all; [|exact Hf]. apply andb_prop in Ec. destruct Ec as [Ec _]. apply andb_prop in Ec. exact (proj1 Ec). }
+    eapply opost_bind; [destruct (is_pair car); [apply IH, H1|exact H1]|]. intros free2 H2.
+    eapply opost_bind; [apply opost_true|]. intros [env' rest] _. apply ffs_over_syms; [exact IH|exact H2].
+  - cbn [ffs opost]. destruct (cell_in_syms (CSym sy) env); [exact Hf|]. apply add_sym_all; [reflexivity|exact Hf].
+Qed.
+Lemma free_syms e l : free_symbols e = Ok l -> all_sym l.
+Proof.
+  intros E. pose proof (ffs_syms (S (cell_size e)) e [] [] (fun c (H : In c []) => match H with end)) as H.
+  unfold free_symbols in E. rewrite E in H. exact H.
+Qed.
+Lemma ids_loop_syms l : forall b acc, all_sym acc -> opost all_sym (ids_loop l b acc).
+Proof.
+  induction l as [|e r IH]; intros b acc Ha; [exact Ha|]. cbn [ids_loop].
+  destruct e; try (apply IH, Ha). destruct (sym_eq _ _); [|apply IH, Ha]. destruct (negb b); [exact I|].
+  apply IH.
+  repeat match goal with |- all_sym (match ?x with _ => _ end) => destruct x end; try exact Ha;
+    (apply add_sym_all; [reflexivity|exact Ha]).
+Qed.
+Lemma ids_syms b l : internally_defined_symbols b = Ok l -> all_sym l.
+Proof.
+  intros E. pose proof (ids_loop_syms (cell_iter b) true [] (fun c (H : In c []) => match H with end)) as H.
+  unfold internally_defined_symbols in E. rewrite E in H. exact H.
+Qed.
+Lemma try_new_keyword e tr : transform_try_new e = Ok tr -> cell_is_datum (tr_keyword tr) = true.
+Proof.
+  unfold transform_try_new. destruct (elems e) as [|x0 [|k [|sr [|]]]]; try discriminate.
+  destruct (Transform.is_symbol k) eqn:Ek; cbn [negb]; [|discriminate]. intros H.
+  repeat match type of H with
+         | bind ?o _ = Ok _ => destruct o eqn:?; cbn [bind] in H; try discriminate H
+         | (if ?b then _ else _) = Ok _ => destruct b; try discriminate H
+         | (let '(_, _) := ?q in _) = Ok _ => destruct q
+         end.
+  injection H as <-. cbn [tr_keyword]. destruct k; try discriminate Ek; reflexivity.
+Qed.
+
 Section Compile.
 (* the two quoted-datum primitives (put_cell / maybe_put_cell) are in NoPanicPutCell.v *)
 
-Lemma np_put_cells l : forall s, wfm s -> npo s (put_cells l s) T_.
+Lemma np_put_cells l : all_sym l -> forall s, wfm s -> npo s (put_cells l s) T_.
 Proof.
-  induction l as [|c r IH]; intros s W; cbn [put_cells]; [apply npost_ret; [exact W|exact I]|].
-  eapply npost_bind; [apply np_put_cell_m, W|]. intros p s1 W1 G1 _.
-  eapply npost_bind; [apply IH, W1|]. intros ps s2 W2 G2 _. apply npost_ret; [exact W2|exact I].
+  induction l as [|c r IH]; intros Hl s W; cbn [put_cells]; [apply npost_ret; [exact W|exact I]|].
+  eapply npost_bind; [apply np_put_cell_m; [apply sym_datum, Hl; left; reflexivity|exact W]|]. intros p s1 W1 G1 _.
+  eapply npost_bind; [apply IH; [intros x Hx; apply Hl; right; exact Hx|exact W1]|]. intros ps s2 W2 G2 _. apply npost_ret; [exact W2|exact I].
 Qed.
 Lemma np_compile_formals a : forall acc s, wfm s -> npo s (compile_formals a acc s) T_.
 Proof.
   cell_ind a; intros acc s W; cbn [compile_formals]; try (apply npost_ret; [exact W|exact I]).
-  - ifd; [apply npost_fail, W|]. ifd; [apply npost_fail, W|].
-    eapply npost_bind; [apply np_put_cell_m, W|]. intros p s1 W1 G1 _. apply IHd, W1.
+  - destruct (Compile.is_symbol a) eqn:Ea; cbn [negb]; [|apply npost_fail, W]. ifd; [apply npost_fail, W|].
+    eapply npost_bind; [apply np_put_cell_m; [apply sym_datum, Ea|exact W]|]. intros p s1 W1 G1 _. apply IHd, W1.
   - ifd; [apply npost_fail, W|].
-    eapply npost_bind; [apply np_put_cell_m, W|]. intros p s1 W1 G1 _. apply npost_ret; [exact W1|exact I].
+    eapply npost_bind; [apply np_put_cell_m; [reflexivity|exact W]|]. intros p s1 W1 G1 _. apply npost_ret; [exact W1|exact I].
 Qed.
 Lemma np_location_operand l r s : wfm s -> npo s (location_operand l r s) V.
 Proof.
@@ -252,13 +320,14 @@ Hypothesis IHq : forall l e d s, wfm s -> CI s l -> npo s (cq l e d s) (CQ l).
 
 Lemma c_quote l x s : wfm s -> CI s l -> npo s (f_quote l x s) (CQ l).
 Proof.
-  intros W HI. unfold f_quote. eapply npost_bind; [apply np_maybe_put_cell_m, W|].
+  intros W HI. unfold f_quote. destruct (cell_is_datum x) eqn:D; cbn [negb]; [|apply npost_fail, W].
+  eapply npost_bind; [apply np_maybe_put_cell_m; [exact D|exact W]|].
   intros v s1 W1 G1 Hv. apply npost_ret; [exact W1|]. pose proof (CI_grow _ _ _ G1 HI) as HI1.
   split; [ci|lens].
 Qed.
-Lemma c_store l x s : wfm s -> CI s l -> npo s (f_store l x s) (CQ l).
+Lemma c_store l x s : Compile.is_symbol x = true -> wfm s -> CI s l -> npo s (f_store l x s) (CQ l).
 Proof.
-  intros W HI. unfold f_store. eapply npost_bind; [apply np_put_cell_m, W|]. intros r s1 W1 G1 (p & ->).
+  intros Hx W HI. unfold f_store. eapply npost_bind; [apply np_put_cell_m; [apply sym_datum, Hx|exact W]|]. intros r s1 W1 G1 (p & ->).
   cbv beta zeta. eapply npost_bind; [apply np_location_operand, W1|]. intros op s2 W2 G2 Hop.
   apply npost_ret; [exact W2|]. assert (HI2 : CI s2 l) by (eapply CI_grow; [|exact HI]; gr).
   split; [ci|lens].
@@ -282,10 +351,10 @@ Proof.
   eapply npost_bind with (Q := T_).
   { destruct (Compile.is_nil fa); [apply npost_ret; [exact W1|exact I]|apply np_compile_formals, W1]. }
   intros [formals vararg] s2 W2 G2 _. cbv beta iota.
-  apply np_bind_lift; [exact W2|apply free_opan|intros free _].
-  eapply npost_bind; [apply np_put_cells, W2|]. intros frefs s3 W3 G3 _.
-  apply np_bind_lift; [exact W3|apply ids_opan|intros internal _].
-  eapply npost_bind; [apply np_put_cells, W3|]. intros irefs s4 W4 G4 _.
+  apply np_bind_lift; [exact W2|apply free_opan|intros free Efree].
+  eapply npost_bind; [apply np_put_cells; [exact (free_syms _ _ Efree)|exact W2]|]. intros frefs s3 W3 G3 _.
+  apply np_bind_lift; [exact W3|apply ids_opan|intros internal Eint].
+  eapply npost_bind; [apply np_put_cells; [exact (ids_syms _ _ Eint)|exact W3]|]. intros irefs s4 W4 G4 _.
   cbv beta zeta. ifd; [apply npost_fail, W4|].
   eapply npost_bind.
   { apply c_body; [exact W4|].
@@ -332,11 +401,11 @@ Proof.
 Qed.
 Lemma c_defsyntax l e s : wfm s -> CI s l -> npo s (f_defsyntax l e s) (CQ l).
 Proof.
-  intros W HI. unfold f_defsyntax. apply np_bind_lift; [exact W|apply try_new_opan|intros tr _].
+  intros W HI. unfold f_defsyntax. apply np_bind_lift; [exact W|apply try_new_opan|intros tr Etr].
   pose proof (cp_new_macro s tr W) as H.
   destruct (new_macro (st s) tr) as [mid x]. destruct (heap_put (hp s) (VMacro mid)) as [tp h].
   destruct H as (W0 & G0 & (tpp & ->)). eapply npo_pre; [exact G0|].
-  eapply npost_bind; [apply np_put_cell_m, W0|]. intros r s1 W1 G1 (p & ->).
+  eapply npost_bind; [apply np_put_cell_m; [exact (try_new_keyword _ _ Etr)|exact W0]|]. intros r s1 W1 G1 (p & ->).
   eapply npost_bind; [apply np_as_ptr, W1|]. intros q s2 W2 G2 _.
   eapply npost_bind; [apply np_get_binding, W2|]. intros slot s3 W3 G3 Hslot.
   apply npost_ret; [exact W3|]. assert (HI3 : CI s3 l) by (eapply CI_grow; [|exact HI]; gr).
@@ -347,18 +416,22 @@ Proof.
   intros W HI. unfold f_define. ifd; [apply npost_fail, W|].
   apply np_bind_lift; [exact W|apply cdr_opan|intros r1 _]. ifd; [apply npost_fail, W|].
   apply np_bind_lift; [exact W|apply car_opan|intros target _].
-  eapply npost_bind with (Q := fun s' p => CQ l s' (fst p)).
-  { destruct target; try (apply npost_fail, W).
-    - eapply npost_bind; [apply c_lambda; assumption|]. intros l1 s1 W1 G1 H1. apply npost_ret; [exact W1|exact H1].
+  eapply npost_bind with (Q := fun s' p => CQ l s' (fst p) /\ Compile.is_symbol (snd p) = true).
+  { destruct target as [?|?| |?|name tl|?|?|?| | |?| | ]; try (apply npost_fail, W).
+    - destruct (Compile.is_symbol name) eqn:En; cbn [negb]; [|apply npost_fail, W].
+      eapply npost_bind; [apply c_lambda; assumption|]. intros l1 s1 W1 G1 H1.
+      apply npost_ret; [exact W1|split; [exact H1|exact En]].
     - apply np_bind_lift; [exact W|apply cdr_opan|intros r2 _]. ifd; [apply npost_fail, W|].
       apply np_bind_lift; [exact W|apply car_opan|intros v _].
-      eapply npost_bind; [apply IHe; assumption|]. intros l1 s1 W1 G1 H1. apply npost_ret; [exact W1|exact H1]. }
-  intros [l1 symbol] s1 W1 G1 [HI1 L1]. cbn [fst] in HI1, L1. cbv beta iota.
+      eapply npost_bind; [apply IHe; assumption|]. intros l1 s1 W1 G1 H1.
+      apply npost_ret; [exact W1|split; [exact H1|reflexivity]]. }
+  intros [l1 symbol] s1 W1 G1 [[HI1 L1] Hsym]. cbn [fst snd] in HI1, L1, Hsym. cbv beta iota.
   ifd; [apply npost_fail, W1|]. eapply npo_le; [exact L1|]. apply c_store; assumption.
 Qed.
 Lemma c_set l rest s : wfm s -> CI s l -> npo s (f_set ce l rest s) (CQ l).
 Proof.
   intros W HI. unfold f_set. destruct (cell_iter rest) as [|v [|x [|]]]; try (apply npost_fail, W).
+  destruct (Compile.is_symbol v) eqn:Ev; cbn [negb orb]; [|apply npost_fail, W].
   ifd; [apply npost_fail, W|].
   eapply npost_bind; [apply IHe; assumption|]. intros l1 s1 W1 G1 [HI1 L1].
   eapply npo_le; [exact L1|]. apply c_store; assumption.
@@ -373,7 +446,7 @@ Proof.
     ifd; [apply np_bind_lift; [exact W|apply car_opan|intros x _]; apply c_quote; assumption|].
     ifd; [apply c_if; assumption|]. ifd; [apply c_set; assumption|]. apply c_app; assumption.
   - ifd; [apply npost_fail, W|].
-    eapply npost_bind; [apply np_put_cell_m, W|]. intros r s1 W1 G1 (p & ->).
+    eapply npost_bind; [apply np_put_cell_m; [reflexivity|exact W]|]. intros r s1 W1 G1 (p & ->).
     eapply npost_bind; [apply np_location_operand, W1|]. intros op s2 W2 G2 Hop.
     apply npost_ret; [exact W2|]. assert (HI2 : CI s2 l) by (eapply CI_grow; [|exact HI]; gr).
     split; [ci|lens].
@@ -410,7 +483,8 @@ Proof.
       apply np_bind_lift; [exact W|apply car_opan|intros x _]. apply IHe; assumption.
     + cbv zeta. eapply npost_bind; [apply c_elems; assumption|].
       intros [[l1 count] tailc] s1 W1 G1 [HI1 L1]. cbn [fst] in HI1, L1. cbv beta iota.
-      eapply npost_bind; [apply np_maybe_put_cell_m, W1|]. intros tv s2 W2 G2 Htv. cbv zeta.
+      destruct (cell_is_datum tailc) eqn:Dt; cbn [negb]; [|apply npost_fail, W1].
+      eapply npost_bind; [apply np_maybe_put_cell_m; [exact Dt|exact W1]|]. intros tv s2 W2 G2 Htv. cbv zeta.
       apply npost_ret; [exact W2|]. pose proof (CI_grow _ _ _ G2 HI1) as HI2.
       destruct (c_conses s2 count (N.to_nat count) 0 (emit (emit_op l1 OPushImmediate) tv)) as [H1 H2]; [ci|].
       split; [exact H1|lens].
